@@ -8,16 +8,16 @@ Statements about `Model/Codec.lean` (tied to the real `MarshalMsg`/`UnmarshalMsg
 from the Go struct definitions and `msg:` tags on every run.
 
 * `decode_encode` — for EVERY schema that is `good` (distinct keys in every struct, no hand-written decoder that drops
-  fields, no version-dispatched wrapper inside) and every well-typed value, decoding the encoding gives the value back,
+  fields, wrappers with distinct version strings over struct versions) and every well-typed value, decoding the encoding gives the value back,
   with nothing left over, after any continuation (`dec_enc`).
 * `encode_canonical` — on the image of `enc`, re-encoding the decoded value yields the same bytes. The converse for
   arbitrary accepted byte strings is FALSE for MessagePack (`noncanonical_accepted`), as the design says.
 * `state_roundtrip` — the 56-byte layout of `state.State`.
 * `migrate_preserves_common` + `gen_migrations_cover_common` — every field common to two consecutive versions of a
   versioned entity survives `MigrateFrom` (generic theorem + the extracted copy lists cover every common key).
-* `gen_schemas_classified` — every generated schema is `good`, or contains an entity wrapper (the theorem is
-  `_partial` there: see `decode_encode_union_partial`), or is one of the three schemas that contain `node.Pool`,
-  whose hand-written `UnmarshalMsg` drops `Type` and `NodesMap`: `gen_node_pool_decode_loses` (finding).
+* `gen_schemas_classified` — 42 of the 45 generated schemas are `good` (versioned entities and nested wrappers
+  included: `decode_encode_wrapper`); the other three are exactly the ones that contain `node.Pool`, whose
+  hand-written `UnmarshalMsg` drops `Type` and `NodesMap`: `gen_node_pool_decode_loses` (finding).
 -/
 namespace ZChain.Codec
 
@@ -54,6 +54,15 @@ theorem field_order_not_canonical :
     (decode (mkStruct [([0x61], .uint), ([0x62], .bool)]) [0x83, 0xa1, 0x7a, 0x91, 0xc0, 0xa1, 0x62, 0xc3, 0xa1, 0x61, 0x07]).map
         (enc (mkStruct [([0x61], .uint), ([0x62], .bool)])) =
       some [0x82, 0xa1, 0x61, 0x07, 0xa1, 0x62, 0xc3] := by decide
+
+/-- **decode_encode for the entity wrappers** (`StorageNode`, `StorageAllocation`, `WriteMarker`, also nested, as
+`BlobberAllocation.LastWriteMarker`): the instance of `decode_encode` for a wrapper schema, spelled out. A wrapper
+encodes as its current version's struct; decoding first reads the `version` key off the bytes, skipping every other
+field with `msgp.Skip` (`skip_enc_ok`: the skip lands exactly behind any encoded value), and then decodes the struct
+registered under that version. -/
+theorem decode_encode_wrapper (alts : Fields) (i : Nat) (v : Val) (hg : good (.union alts) = true)
+    (hw : wt (.union alts) (.alt i v) = true) : decode (.union alts) (enc (.union alts) (.alt i v)) = some (.alt i v) :=
+  decode_encode _ _ hg hw
 
 /-! ## state.State -/
 
@@ -135,31 +144,18 @@ theorem gen_migrations_cover_common : Gen.migrations.all migrationCovers = true 
 
 /-! ## the regenerated schemas -/
 
-mutual
-def hasUnion : Ty → Bool
-  | .arr e => hasUnion e
-  | .farr _ e => hasUnion e
-  | .map e => hasUnion e
-  | .ptr e => hasUnion e
-  | .struct fs => hasUnionF fs
-  | .pstruct _ fs => hasUnionF fs
-  | .union _ => true
-  | _ => false
-def hasUnionF : Fields → Bool
-  | .nil => false
-  | .cons _ t r => hasUnion t || hasUnionF r
-end
-
-/-- 0 = `good` (the theorem applies as it is), 1 = contains an entity wrapper, 2 = contains a lossy hand-written decoder -/
-def classOf (t : Ty) : Nat := if good t then 0 else if hasUnion t then 1 else 2
-
-/-- **gen_schemas_classified** (re-proved on every regeneration), in the order of `Gen.schemas`: 36 schemas are
-`good`; `BlobberAllocation` (through `LastWriteMarker`), the two allocation versions and the three wrappers contain an
-entity wrapper; the three lossy ones are exactly the schemas that contain `node.Pool` — `minersc.GlobalNode`
-(position 29), `node.Pool` (43), `block.MagicBlock` (44) — whose `UnmarshalMsg` drops `Type` and `NodesMap` (finding). -/
+/-- **gen_schemas_classified** (re-proved on every regeneration), in the order of `Gen.schemas`: 42 of the 45 stored
+types' schemas are `good`, so `decode_encode` applies to them as it is — including the versioned entities
+`StorageNode`, `StorageAllocation`, `WriteMarker` and the allocations that nest a `WriteMarker` wrapper. The three
+that are not are exactly the schemas that contain `node.Pool` — `minersc.GlobalNode` (position 29), `node.Pool` (43),
+`block.MagicBlock` (44) — whose hand-written `UnmarshalMsg` drops `Type` and `NodesMap` (finding; see
+`gen_node_pool_decode_loses`). A new struct with two fields under one key, a wrapper whose `version` key is not a
+string, or another decoder that drops fields makes this fail. -/
 theorem gen_schemas_classified :
-    Gen.schemas.map (fun s => classOf s.2) =
-      [0, 0, 0, 0, 0, 0, 0, 1, 1, 0, 0, 1, 0, 0, 0, 0, 0, 1, 1, 1, 0, 0, 0, 0, 0, 0, 0, 0, 0, 2, 0, 0, 0, 0, 0, 0, 0, 0, 0, 0, 0, 0, 0, 2, 2] := by
+    Gen.schemas.map (fun s => good s.2) =
+      [true, true, true, true, true, true, true, true, true, true, true, true, true, true, true, true, true, true, true, true,
+       true, true, true, true, true, true, true, true, true, false, true, true, true, true, true, true, true, true, true, true,
+       true, true, true, false, false] := by
   decide
 
 theorem gen_lossy_schema_names :
@@ -197,5 +193,15 @@ example : enc Gen.stakepool_DelegatePool
      0xaa, 0x44, 0x65, 0x6c, 0x65, 0x67, 0x61, 0x74, 0x65, 0x49, 0x44, 0xa2, 0x61, 0x62, 0xa8, 0x53, 0x74, 0x61, 0x6b, 0x65, 0x64, 0x41, 0x74,
      0xd2, 0x00, 0x01, 0x11, 0x70] := by decide
 example : (⟨List.replicate 32 0, 5, 7, -1⟩ : State).txnHash.length = 32 := by decide
+-- a version-2 write marker inside the wrapper: the peek finds "v2", the wrapper decodes and re-encodes to the same bytes
+def wmV2 : Val := .alt 1 (.arr (.cons (.str [118, 50]) (.cons (.str [1]) (.cons (.str []) (.cons (.str []) (.cons (.str [2])
+  (.cons (.int 7) (.cons (.int 9) (.cons (.str [3]) (.cons (.str [4]) (.cons (.int 5) (.cons (.str [6]) (.cons (.str [7]) .nil)))))))))))))
+set_option maxRecDepth 8192 in
+example : wt Gen.storagesc_WriteMarker wmV2 = true := by decide
+set_option maxRecDepth 8192 in
+example : peekVersion (enc Gen.storagesc_WriteMarker wmV2) = some [118, 50] := by decide
+set_option maxRecDepth 8192 in
+example : (decode Gen.storagesc_WriteMarker (enc Gen.storagesc_WriteMarker wmV2)).map (enc Gen.storagesc_WriteMarker) =
+    some (enc Gen.storagesc_WriteMarker wmV2) := by decide
 
 end ZChain.Codec
